@@ -25,7 +25,7 @@ AXIOMS_OK = FLOAT_AXIOMS
 #   ArchiveGen (GenProofs/ArchiveEquiv.v): Archive.add, Archive.truncate (getter fixed to 'crowding_distance') = Model/Archive.v
 #   ClipGen    (GenProofs/ClipEquiv.v): Operator.clip = Model/Variation.v clip; algorithm_swarm.py does not call clip and no C18 theorem uses it
 from harness.core import translated_specs
-TRANSLATED = translated_specs("ClipGen", "SwarmGen", "ArchiveGen")
+TRANSLATED = translated_specs("ClipGen", "SwarmGen", "ArchiveGen", "SwarmWholeGen")
 TRUSTED = [
     "Coq 8.16.1 kernel, vm_compute for model evaluation (no native_compute)",
     "FloatAxioms (ltb_spec, eqb_spec, opp_spec) and the primitive float operations (standard library) for the binary64 instance",
